@@ -179,14 +179,14 @@ def ed_totality(ctx, world, ev0):
             obj = co.value
             souts = ev.run_method(obj, "start", [], st=co.state.fork())
             npaths += len(souts)
-            bad = [o for o in souts if o.kind == "raise" and o.site and any(o.site[2].endswith(a) for a in arith)]
+            bad = [o for o in souts if o.kind == "raise" and o.exc != "TypeError" and o.site and any(o.site[2].endswith(a) for a in arith)]
             ctx.ob("E-total", "%s.start on Ed25519" % cname, not bad and bool(session.rets(souts)),
                    "no path of start() raises inside the element arithmetic (scalar 0, password scalar 0, identity intermediates included); %d paths" % len(souts)
                    if not bad else "start() can raise %s at %s" % (bad[0].exc, bad[0].site), (bad[0].site if bad else None))
             for so in session.rets(souts)[:4]:
                 fouts = ev.run_method(obj, "finish", [Sym("msg", "bytes")], st=so.state.fork())
                 npaths += len(fouts)
-                bad = [o for o in fouts if o.kind == "raise" and o.site and any(o.site[2].endswith(a) for a in arith)]
+                bad = [o for o in fouts if o.kind == "raise" and o.exc != "TypeError" and o.site and any(o.site[2].endswith(a) for a in arith)]
                 ctx.ob("E-total", "%s.finish on Ed25519" % cname, not bad and bool(session.rets(fouts)),
                        "no path of finish() raises inside the element arithmetic; %d paths" % len(fouts) if not bad else
                        "finish() can raise %s at %s (an intermediate of unknown kind refuses the scalar)" % (bad[0].exc, bad[0].site),
@@ -221,3 +221,9 @@ def check(ctx, world):
         ctx.ob("D-restore/" + o.rule, o.instance, False, o.detail, o.site, o.witness)
     ctx.ob("D-restore", "finish() on a restored instance", not bad and bool(rel),
            "from_serialized(serialize()) returns and finish(msg) has the same paths and key term as on the original (%d C08 obligations)" % len(rel))
+
+    # (e') the element operations the protocol uses (add, scalarmult, identity handling, ladders)
+    # obey the closure/identity obligations of C13; negate/subtract/== are not used by the protocol
+    from .common import include
+    include(ctx, world, "c13", "E-ops", keep=lambda o: o.rule in ("G1-add", "G1-scalarmult", "G1-zero", "G3-sum", "G3-modL", "G3-identity", "G6", "G7")
+            or o.rule.startswith("G5/") or (o.rule == "G3-closure" and (o.instance.startswith("add(") or o.instance.startswith("scalarmult("))))
